@@ -8,7 +8,7 @@
    [legal_run] only asks that every stamp is a non-negative int64 and that no data file
    reaches 2^32 bytes (pointer offsets and sizes are uint32 in the Go code). *)
 From stdpp Require Import gmap.
-From Coq Require Import ZArith NArith List Bool.
+From Coq Require Import ZArith NArith List Bool Lia.
 From Synnax Require Import Common.Telem Common.TelemProofs
   Cesium.Domain Cesium.DomainProofs Cesium.DomainInv.
 Import ListNotations.
@@ -100,6 +100,48 @@ Theorem C03_commit_overlap_fails : forall st w wr f e k ce sw q,
 Proof. intros. eapply commit_overlap_fails; eauto. Qed.
 Print Assumptions C03_commit_overlap_fails.
 
+(* In every history whose deletes stay at or before the start of every open writer (what
+   the control gate of unary.DB.delete enforces: [gated_run]), a live writer that has
+   committed finds its own pointer in the index ... *)
+Theorem C03_own_pointer_present : forall nominal cap ops w wr,
+  legal_run (init nominal cap) ops -> gated_run (init nominal cap) ops ->
+  let st := run (init nominal cap) ops in
+  d_writers st !! w = Some wr -> w_closed wr = false -> w_prev wr <> 0 ->
+  exists i own, getp (d_ptrs st) i = Some own /\ p_start own = w_start wr.
+Proof.
+  intros nominal cap ops w wr Hl Hg st Hw Hc Hp.
+  apply (coh_own st w wr); try assumption.
+  apply run_coh; [apply Inv_init|apply Coh_init|assumption|assumption].
+Qed.
+Print Assumptions C03_own_pointer_present.
+
+(* ... hence a commit in such a history fails only with a declared error class: index.update
+   never reaches its out-of-range index (a panic holding the index lock) nor its
+   "range not found" branches. *)
+Theorem C03_commit_fails_cleanly : forall nominal cap ops w e k,
+  legal_run (init nominal cap) ops -> gated_run (init nominal cap) ops -> ts_in_range e ->
+  let st := run (init nominal cap) ops in
+  snd (commit st w e k) <> RErr EPanic /\ snd (commit st w e k) <> RErr ENotFound.
+Proof.
+  intros nominal cap ops w e k Hl Hg He st. apply commit_clean; [| |assumption].
+  - apply run_inv; [apply Inv_init|assumption].
+  - apply run_coh; [apply Inv_init|apply Coh_init|assumption|assumption].
+Qed.
+Print Assumptions C03_commit_fails_cleanly.
+
+(* Without the gate the faithful model does reach them: deleting an open writer's own
+   domain makes its next commit panic in index.update (ptrs[-1]) — the reason the gate
+   exists; the domain package alone does not protect itself. *)
+Theorem C03_ungated_delete_panics_refuted :
+  exists ops, legal_run (init 8 10) ops /\
+    snd (step (run (init 8 10) ops) (Commit 1 25 0)) = RErr EPanic.
+Proof.
+  exists [Open 1 10 0 0; Write 1 [1]%N; Commit 1 20 0; Open 2 30 0 0; Write 2 [2]%N; Commit 2 40 0;
+          Delete 10 20; Write 1 [3]%N].
+  split; [apply legal_runb_sound; vm_compute; reflexivity|vm_compute; reflexivity].
+Qed.
+Print Assumptions C03_ungated_delete_panics_refuted.
+
 (* A commit that moves backwards fails with a validation error.  The guard [sw && preset =
    false] is the documented design exception: a writer with a preset end commits that
    preset end, except on a file switch where it commits the given stamp. *)
@@ -169,6 +211,20 @@ Theorem C03_overlaps_with_spec : forall a b,
    tr_start a = tr_start b \/ (tr_start a < tr_end b /\ tr_start b < tr_end a)).
 Proof. exact overlaps_with_spec. Qed.
 Print Assumptions C03_overlaps_with_spec.
+
+(* The range hypothesis [tr_in_range] (stamps in [TimeStampMin, TimeStampMax] = [0, 2^63-1])
+   is needed: TimeRange.Span is an int64 subtraction, so a range reaching below zero with a
+   span of 2^63 or more is taken for inverted and OverlapsWith misses a genuine overlap.
+   (x/go/telem agrees with the model on this input: the function-level differential test of
+   the check covers the int64 extremes.) *)
+Theorem C03_range_hypothesis_needed_refuted :
+  exists a b, tr_start a <= tr_end a /\ tr_start b <= tr_end b /\
+    (tr_start a < tr_end b /\ tr_start b < tr_end a) /\ overlaps_with a b = false.
+Proof.
+  exists (mkTR 0 5), (mkTR (- 2 ^ 62 - 1) (2 ^ 62 + 1)).
+  split; [simpl; lia|]. split; [simpl; lia|]. split; [simpl; lia|]. vm_compute. reflexivity.
+Qed.
+Print Assumptions C03_range_hypothesis_needed_refuted.
 
 (* The two defects this check found in the pinned upstream tree (both repaired by fix:
    commits in /repo; the model copies the repaired code): *)
